@@ -110,6 +110,8 @@ def check_band_values(rule, idx, f: FunctionInfo, average: bool = True) -> None:
 
     Decided on resolved expressions, so temporaries, renamed variables, tuple-unpacked groups, enumerate ↔ range(len) and an
     extracted helper for the band → group search do not matter."""
+    from ..sem import inline_private_helpers, loopify_comprehensions
+    f = inline_private_helpers(idx, loopify_comprehensions(idx, f))
     S = Sem(idx, f)
     cfg, du, pm = S.cfg, S.du, S.pm
     # (1) the store result[ik, J] = VALUES[KEY]
@@ -266,16 +268,34 @@ def _search_form(idx, f, S: Sem, e: ast.AST, at: int):
     return None
 
 
-def _per_k_list_form(idx, f, S: Sem, name: ast.Name, at: int):
+def _per_k_list_form(idx, f, S: Sem, name: ast.Name, at: int, inside: Optional[ast.AST] = None):
     """Normal form of a list built for one k-point whose j-th entry is the group of the j-th requested band: comprehension over the
     bands (inner search as a nested generator, a helper call or next(…)), or `L = []` + append in a loop nest; a trailing
     `[g for g in L if g is not None]` is looked through (it only matters when a band belongs to no group)."""
     cur, cur_at = name, at
     for _ in range(4):
         ds = S.du.reaching(cur.id, cur_at)
+        augs = [d for d in ds if d.kind == "aug"]
+        ds = [d for d in ds if d.kind != "aug"]
         if len(ds) != 1 or ds[0].value is None:
             return None
         v = ds[0].value
+        if augs:
+            # L = [] ; for b in bands: L += [n for n in GROUPS if …][:1]     (first match of the inner search, if any)
+            if not ((isinstance(v, ast.List) and not v.elts) or norm(v) == "list()") or len(augs) != 1 or not isinstance(augs[0].stmt.op, ast.Add):
+                return None
+            a = augs[0].stmt
+            av = a.value
+            if isinstance(av, ast.Subscript) and norm(av.slice) in (":1", "0:1") and isinstance(av.value, ast.ListComp):
+                lc = av.value
+                loops = [(norm(l.target), S.rnorm(l.iter, S.cfg.node(l)), l) for l in reversed(enclosing_all(S.pm, a, ast.For))]
+                loops = [x for x in loops if x[2].lineno >= ds[0].stmt.lineno and x[2] is not inside]
+                at_ = S.cfg.node(a)
+                loops += [(norm(ge.target), S.rnorm(ge.iter, at_), ge) for ge in lc.generators]
+                conds = [i_.test for i_ in enclosing_all(S.pm, a, ast.If) if any(x is a for b_ in i_.body for x in ast.walk(b_))]
+                conds += [c for ge in lc.generators for c in ge.ifs]
+                return S, f, a, lc.elt, loops, conds
+            return None
         if isinstance(v, ast.ListComp) and len(v.generators) == 1 and isinstance(v.elt, ast.Name) and isinstance(v.generators[0].target, ast.Name) \
                 and v.elt.id == v.generators[0].target.id and isinstance(v.generators[0].iter, ast.Name) and len(v.generators[0].ifs) == 1 \
                 and norm(v.generators[0].ifs[0]) == f"{v.elt.id} is not None":
@@ -287,7 +307,7 @@ def _per_k_list_form(idx, f, S: Sem, name: ast.Name, at: int):
                 if norm(c.func.value) == cur.id and len(c.args) == 1:
                     loops = [(norm(l.target), S.rnorm(l.iter, S.cfg.node(l)), l) for l in reversed(enclosing_all(S.pm, c, ast.For))]
                     # only the loops that start after the list was created belong to its construction
-                    loops = [x for x in loops if x[2].lineno > ds[0].stmt.lineno]
+                    loops = [x for x in loops if x[2].lineno > ds[0].stmt.lineno and x[2] is not inside]
                     conds = [i_.test for i_ in enclosing_all(S.pm, c, ast.If) if any(x is c for b_ in i_.body for x in ast.walk(b_))]
                     return S, f, enclosing(S.pm, c, ast.stmt), c.args[0], loops, conds
             return None
@@ -324,6 +344,21 @@ def _find_group_builder(idx, f, S: Sem, grp_name: str, ikv: str, at: int):
     for c in method_calls(f.node, "append"):
         if norm(c.func.value) == f"{grp_name}[{ikv}]" and len(c.args) == 1:
             return from_append(S, f, c)
+    # form C: GROUPS.append(L) once per k-point, L a list built for this k-point
+    for c in method_calls(f.node, "append"):
+        if norm(c.func.value) == grp_name and len(c.args) == 1 and isinstance(c.args[0], ast.Name):
+            lps = [l for l in enclosing_all(S.pm, c, ast.For)]
+            if len(lps) == 1 and norm(lps[0].target) == ikv:
+                L, L_at = c.args[0], S.du.node_of_expr(c)
+                for _ in range(3):      # look through plain aliases `t = L`
+                    dd = S.du.reaching(L.id, L_at)
+                    if len(dd) == 1 and dd[0].kind == "assign" and isinstance(dd[0].value, ast.Name):
+                        L, L_at = dd[0].value, dd[0].node
+                    else:
+                        break
+                site = _per_k_list_form(idx, f, S, L, L_at, inside=lps[0])
+                if site is not None:
+                    return site
     # form B: GROUPS = [<per-k list> for ik in …]
     ds = S.du.reaching(grp_name, at) if grp_name.isidentifier() else []
     if len(ds) == 1 and isinstance(ds[0].value, ast.ListComp) and len(ds[0].value.generators) == 1 and norm(ds[0].value.generators[0].target) == ikv:
